@@ -249,7 +249,7 @@ def f13_ambient(ctx, repo):
     tn = repo.mod("misc/timeTools.py").func("timestampNow")
     g = CFG(tn.node)
     clock = [c for c in calls_in(tn.node) if call_name(c) == "time.time"]
-    envr = [c for c in calls_in(tn.node) if call_name(c) == "os.environ.get" and c.args and norm(c.args[0]) == "'SOURCE_DATE_EPOCH'"]
+    envr = [c for c in calls_in(tn.node) if call_name(c) == "os.environ.get" and c.args and try_fold(c.args[0]) == "SOURCE_DATE_EPOCH"]  # literal or named constant
     ok = bool(clock) and bool(envr) and all(g.dominates(g.id_of(envr[0]), g.id_of(c)) for c in clock)
     # the early return when the variable is set
     rets = [n for n in ast.walk(tn.node) if isinstance(n, ast.Return) and "source_date_epoch" in norm(n.value)]
